@@ -155,6 +155,8 @@ def check(run):
                         variant="json-quote", key_of=_key, tag="_values")
     loadfam.replay_load(run, pcases, "Trace_Value", "Trace_Value.cfg", build_features=("json", "quote"),
                         variant="json-quote", key_of=_key, tag="_projects")
+    loadfam.replay_load(run, loadfam.namespaced(pcases[:40]), "Trace_Value", "Trace_Value.cfg", build_features=("json", "quote"),
+                        variant="json-quote", key_of=lambda c, r: "namespaced;" + _key(c, r), tag="_ns")
     n_l2 = run_l2(run, pcases, 3 if quick else 40)
     run.notes["l2_render_events"] = n_l2
     run.exhaustive = True
